@@ -34,13 +34,14 @@ Inductive ev :=
 | EvBest | EvClear
 | EvRdQuit (v : bool) | EvRdSearch (v : bool)
 | EvGo (p : bool) | EvQuit | EvUnponder
+| EvResult (r cur : Z)                             (* Search::shouldStop handler: reported / current jobId *)
 | EvSendQuit (t : tid) (q : Z)
 | EvQAck (t : tid) (q : Z).
 
 Record cstate := mkC {
   cs : state;
   pend : tid -> option (tid * nat * Z * nat);   (* PUSH seen, its notify not yet *)
-  pendquit : bool                               (* QUIT seen, its notify not yet *)
+  pendres : option (Z * Z)                      (* RESULT seen: the engine thread's next event decides *)
 }.
 
 Inductive result :=
@@ -61,26 +62,24 @@ Definition do_label (c : cstate) (lb : label) (k : state -> result) : result :=
   | None => Bad 1
   end.
 
-Definition ok_state (c : cstate) (s : state) : result := Ok (mkC s (pend c) (pendquit c)).
+Definition ok_state (c : cstate) (s : state) : result := Ok (mkC s (pend c) (pendres c)).
 
 Definition beq (a b : bool) : bool := Bool.eqb a b.
 
-Definition check_ev (c : cstate) (e : ev) : result :=
+Definition check_ev0 (c : cstate) (e : ev) : result :=
   let s := cs c in
   match e with
   | EvPush t o ty j ql =>
       match pend c t with
       | Some _ => Bad 2
-      | None => Ok (mkC s (upd (pend c) t (Some (o, ty, j, ql))) (pendquit c))
+      | None => Ok (mkC s (upd (pend c) t (Some (o, ty, j, ql))) (pendres c))
       end
   | EvN t o =>
       if Nat.eqb t uci then
         (* notifies by the UCI thread: startSearch / quit / setOptionWhenIdle *)
         match epc s with
-        | ENotifyGo => do_label c (LE ENotify) (ok_state c)
-        | EIdle =>
-            if pendquit c then do_label c (LE EQuit) (fun s' => Ok (mkC s' (pend c) false))
-            else do_label c (LE ESpur) (ok_state c)
+        | EIdle => do_label c (LE ESpur) (ok_state c)
+        | _ => do_label c (LE ENotify) (ok_state c)
         end
       else
         match pend c t with
@@ -98,7 +97,7 @@ Definition check_ev (c : cstate) (e : ev) : result :=
                 match last_cmd (qu s' o) with
                 | Some m =>
                     if Nat.eqb (cmd_type m) ty && (cmd_job m =? j) && Nat.eqb (length (qu s' o)) ql
-                    then Ok (mkC s' (upd (pend c) t None) (pendquit c))
+                    then Ok (mkC s' (upd (pend c) t None) (pendres c))
                     else Bad 5
                 | None => Bad 5
                 end)
@@ -143,10 +142,39 @@ Definition check_ev (c : cstate) (e : ev) : result :=
   | EvRdQuit v => if beq (quitf s) v then do_label c (LT 0%nat ARdQuit) (ok_state c) else Bad 13
   | EvRdSearch v => if beq (search s) v then do_label c (LT 0%nat ARdSearch) (ok_state c) else Bad 14
   | EvGo p => do_label c (LE (EGo p)) (ok_state c)
-  | EvQuit => Ok (mkC s (pend c) true)
+  | EvQuit => do_label c (LE EQuit) (ok_state c)
   | EvUnponder => do_label c (LE EUnponder) (ok_state c)
+  | EvResult r cur =>
+      (* the handler runs for the REPORT_RESULT just popped while the engine thread searches *)
+      match pc (th s 0%nat) with
+      | PPoll KMSearch => if job (th s 0%nat) =? cur then Ok (mkC s (pend c) (Some (r, cur))) else Bad 12
+      | _ => Bad 17
+      end
   | EvSendQuit t q => if qa (th s t) =? q then Ok c else Bad 15
   | EvQAck t q => if qa (th s t) =? q then Ok c else Bad 16
+  end.
+
+(** thread performing the event (the UCI thread for environment events) *)
+Definition ev_thread (e : ev) : tid :=
+  match e with
+  | EvN t _ | EvW t | EvPush t _ _ _ _ | EvPop t _ _ _ | EvEmpty t | EvStopSearch t _ _
+  | EvAck t _ _ | EvJob t _ | EvMaxD t | EvStart t _ | EvInit t | EvSendQuit t _ | EvQAck t _ => t
+  | EvBest | EvClear | EvRdQuit _ | EvRdSearch _ | EvResult _ _ => 0%nat
+  | EvGo _ | EvQuit | EvUnponder => uci
+  end.
+
+(** a result is accepted (HelperThreadResult thrown, poll left) iff its jobId is the current one:
+    after RESULT r cur the engine thread's next event continues the poll loop iff r <> cur *)
+Definition check_ev (c : cstate) (e : ev) : result :=
+  match pendres c with
+  | Some (r, cur) =>
+      if Nat.eqb (ev_thread e) 0 then
+        let continues := match e with EvPop _ _ _ _ | EvEmpty _ => true | _ => false end in
+        if Bool.eqb continues (negb (r =? cur))
+        then check_ev0 (mkC (cs c) (pend c) None) e
+        else Bad 18
+      else check_ev0 c e
+  | None => check_ev0 c e
   end.
 
 (** ---- (re)configuration between searches ---- *)
@@ -178,4 +206,4 @@ Definition reconf (s : state) (keep : tid -> bool) : state :=
           (fun t => match t with O => flag s 0%nat | _ => if keep t then flag s t else false end)
           (search s) (quitf s) (ponder s) (epc s) (sid s) (nbest s).
 
-Definition cinit : cstate := mkC init (fun _ => None) false.
+Definition cinit : cstate := mkC init (fun _ => None) None.
